@@ -43,6 +43,12 @@ func c09Gen(seed int64, idx int) c09Spec {
 	sp.Topology = []string{"keep", "keep", "move_master", "two_masters", "no_master"}[r.Intn(5)]
 	sp.FailMW = sp.Leave && sp.Topology == "move_master" && r.Intn(2) == 0
 	sp.EnterRace = []string{"none", "none", "switch_pending", "master_dead"}[r.Intn(4)]
+	if sp.Mode == "full" && idx%8 == 2 {
+		// the operator stops replication on a replica, then everybody loses the coordination service for longer than
+		// the session timeout: the master's daemon must stay in maintenance, not fence a master without a live group
+		sp.Events = []string{"stop_replication", "zk_outage_long"}
+		sp.EnterRace = "none"
+	}
 	if sp.Mode == "light" && idx%8 == 7 {
 		// an automatic failover was started and its attempt failed before the operator asks for light maintenance
 		sp.EnterRace, sp.Events, sp.Leave, sp.FailMW = "failover_started_and_failing", nil, false, false
@@ -364,6 +370,11 @@ func c09Run(u *Unit) {
 			case "zk_outage":
 				s.ZKOutage(true)
 				time.Sleep(time.Duration(5+s.Rng.Intn(40)) * time.Second)
+				s.ZKOutage(false)
+				sc.Cover("outage-in-maintenance")
+			case "zk_outage_long":
+				s.ZKOutage(true)
+				time.Sleep(60 * time.Second)
 				s.ZKOutage(false)
 				sc.Cover("outage-in-maintenance")
 			case "crash_replica":
